@@ -207,6 +207,9 @@ def plan(tier, seed, which):
         combos += [(gens[0], 'cp037', True), (gens[1], 'ascii', True)]
         pair_combos = [('PKG', e, h) for e in isogen.ENCODINGS_QUICK for h in (False, True)]
         pair_combos += [(gens[0], 'latin_1', False), (gens[1], 'cp500', True)]
+        # the same configurations supplied with their keys in string-sorted (non-ascending) order
+        pair_combos += [('PKGS', 'latin_1', False), (gens[0] + 'S', 'cp500', False)]
+        order_combos = [('PKGS', 'latin_1', False), (gens[0] + 'S', 'cp500', False)]
     else:
         combos = [('PKG', e, h) for e in isogen.ENCODINGS_ALL for h in (False, True)]
         combos += [('GEN%d' % s, e, h) for s in range(14)
@@ -215,10 +218,15 @@ def plan(tier, seed, which):
         pair_combos = [('PKG', e, h) for e in isogen.ENCODINGS_ALL for h in (False, True)]
         pair_combos += [('GEN%d' % s, e, h) for s in range(14)
                         for (e, h) in (('latin_1', False), ('cp500', True))]
+        pair_combos += [('PKGS', 'latin_1', False), ('PKGS', 'cp500', True)] + \
+            [('GEN%dS' % s, 'latin_1', False) for s in range(14)]
+        order_combos = [('PKGS', 'latin_1', False)] + [('GEN%dS' % s, 'cp500', False) for s in range(0, 14, 3)]
     for cfgname, enc, hx in combos:
         for bit in isogen.bits_of(cfgname):
             ts.append({'fam': 'singles', 'cfg': cfgname, 'enc': enc, 'hex': hx, 'bit': bit, 'seed': seed,
                        'which': which})
+        ts.append({'fam': 'long', 'cfg': cfgname, 'enc': enc, 'hex': hx, 'seed': seed, 'which': which})
+    for cfgname, enc, hx in order_combos:
         ts.append({'fam': 'long', 'cfg': cfgname, 'enc': enc, 'hex': hx, 'seed': seed, 'which': which})
     for cfgname, enc, hx in pair_combos:
         for bit in isogen.bits_of(cfgname):
